@@ -9,3 +9,13 @@ import "time"
 func verifScanTick() <-chan time.Time {
 	return time.After(200 * time.Millisecond)
 }
+
+// VerifManagerWindow, when set, is called by the manager between building a
+// client from a node's content and subscribing to that node's updates.
+var VerifManagerWindow func(nodeID string)
+
+func verifManagerWindow(nodeID string) {
+	if f := VerifManagerWindow; f != nil {
+		f(nodeID)
+	}
+}
